@@ -17,7 +17,8 @@ needs: *a precision is only ever applied to escape-free text*. This file makes t
 * `Env` — what the guards consult: `config.hyperlinks`, and whether stdout is a terminal;
 * `fieldPieces` — the field string as pieces (`Line.Piece`: plain text, or an OSC 8 link around plain text);
 * `pad` — `format::pad` for a string (clamps, precision = `take`, alignment), `paddedWidth` — the Unicode correction;
-* `formatMeta` — `format_blame_metadata`: prefix, padded field, …, last suffix;
+* `formatMeta` — `format_blame_metadata`: prefix, padded field, …, last suffix; `postPad` — a source that links a field
+  *after* padding it (generated `padUse` / `linkAfterPad`; the repair of the defect found here has that shape);
 * `blameRow` — the `write!` of `handle_blame_line` (generated `rowPieces`): metadata (blanked when the key repeats),
   separator prefix, line number, separator suffix, each painted, then the painted code line;
 * `mayCarryEscapes`, `precisionOnPlain`, `armsPlainWhen` — the decidable side conditions;
@@ -69,7 +70,9 @@ structure Fields where
   time : FieldVal
   author : FieldVal
   commit : FieldVal
-  deriving DecidableEq, Repr
+  /-- `format_commit_line_with_osc8_commit_hyperlink` as a function (consulted only by a source that links a field *after*
+  it has been padded: `Generated.BlameMeta.linkAfterPad`) -/
+  relink : Str → List Piece := fun t => [.plain t]
 
 inductive Kind where
   | text | rawLine | commitLink | unmodelled
@@ -182,6 +185,26 @@ def paddedWidth (cw : Char → Nat) (width : Nat) (field : Str) : Except String 
 def alignOfString (s : String) : Align :=
   if s == "Center" then .center else if s == "Right" then .right else .left
 
+/-- Labels whose padded string goes through a link function before it is appended (none in a source that pushes the
+padded string as it is). -/
+def linkAfterPadArms : List (String × Kind) := linkAfterPad.map fun a => (a.1, kindOfString a.2)
+
+def lookupKind : List (String × Kind) → String → Option Kind
+  | [], _ => none
+  | (l, k) :: rest, x => if l == x then some k else lookupKind rest x
+
+/-- What is appended for a placeholder, given its padded string. Linking *after* padding is only modelled for a field that
+was escape-free when it was padded (`plainField`). -/
+def postPad (env : Env) (relink : Str → List Piece) (post : List (String × Kind)) (label : String) (plainField : Bool)
+    (padded : Str) : Except String Str :=
+  match lookupKind post label with
+  | none => .ok padded
+  | some k =>
+    match resolve env k with
+    | .text => .ok padded
+    | .commitLink => if plainField then .ok (piecesChars (relink padded)) else .error "unmodelled: a linked field linked again"
+    | _ => .error "unmodelled link after pad"
+
 def formatMetaGo (env : Env) (cw : Char → Nat) (f : Fields) : List Item → Str → Str → Except String Str
   | [], acc, suffix => .ok (acc ++ suffix)
   | it :: rest, acc, _ =>
@@ -203,12 +226,56 @@ def formatMetaGo (env : Env) (cw : Char → Nat) (f : Fields) : List Item → St
             match paddedWidth cw (it.width.getD defaultWidth) (piecesChars ps) with
             | .error e => .error e
             | .ok w =>
-              formatMetaGo env cw f rest
-                (acc ++ (it.pre ++ pad (piecesChars ps) w (it.align.getD (alignOfString defaultAlign)) it.prec)) it.suf
+              match postPad env f.relink linkAfterPadArms lab (!mayCarryEscapes env a.kind)
+                  (pad (piecesChars ps) w (it.align.getD (alignOfString defaultAlign)) it.prec) with
+              | .error e => .error e
+              | .ok shown => formatMetaGo env cw f rest (acc ++ (it.pre ++ shown)) it.suf
 
 /-- `format_blame_metadata(format_data, blame, config)`. -/
 def formatMeta (env : Env) (cw : Char → Nat) (items : List Item) (f : Fields) : Except String Str :=
   formatMetaGo env cw f items [] []
+
+/-! ### the link function on a padded field (executable reference for the driver)
+
+`format_commit_line_with_osc8_commit_hyperlink` with a `--hyperlinks-commit-link-format` template, written from its
+documentation: the first 13 matches of `\b[0-9a-f]{7,40}\b` — whole runs of word characters made of 7-40 lower-case hex
+digits — become OSC 8 links to the template with `{commit}` replaced, provided they contain a letter. (Non-ASCII
+characters count as word characters here; a padded commit field consists of hex digits, `^` and blanks.) -/
+
+def isWordChar (c : Char) : Bool := c.isAlphanum || c == '_' || decide (c.toNat ≥ 128)
+def isLowerHex (c : Char) : Bool := c.isDigit || (decide (97 ≤ c.toNat) && decide (c.toNat ≤ 102))
+def hasHexLetter (w : Str) : Bool := w.any fun c => decide (97 ≤ c.toNat) && decide (c.toNat ≤ 102)
+
+def commitPh : Str := "{commit}".toList
+
+/-- `template.replace("{commit}", hash)`; `skip` = characters of a placeholder still to be dropped. -/
+def replaceCommit (hash : Str) : Nat → Str → Str
+  | _, [] => []
+  | skip + 1, _ :: rest => replaceCommit hash skip rest
+  | 0, c :: rest =>
+    if commitPh.isPrefixOf (c :: rest) then hash ++ replaceCommit hash (commitPh.length - 1) rest
+    else c :: replaceCommit hash 0 rest
+
+/-- Maximal runs of word / non-word characters. -/
+def wordRuns : Str → List (Bool × Str)
+  | [] => []
+  | c :: rest =>
+    match wordRuns rest with
+    | (b, r) :: more => if b == isWordChar c then (b, c :: r) :: more else (isWordChar c, [c]) :: (b, r) :: more
+    | [] => [(isWordChar c, [c])]
+
+def relinkGo (tmpl : Str) : Nat → List (Bool × Str) → List Piece
+  | _, [] => []
+  | n, (isWord, w) :: rest =>
+    if isWord && w.all isLowerHex && decide (7 ≤ w.length) && decide (w.length ≤ 40) then
+      (if decide (n < 13) && hasHexLetter w then Piece.linked (replaceCommit w 0 tmpl) w else .plain w) ::
+        relinkGo tmpl (n + 1) rest
+    else .plain w :: relinkGo tmpl n rest
+
+def commitRelink (tmpl : Option Str) (t : Str) : List Piece :=
+  match tmpl with
+  | none => [.plain t]
+  | some u => relinkGo u 0 (wordRuns t)
 
 /-! ### side conditions -/
 
@@ -306,6 +373,16 @@ def modelledLoopStmts : List String :=
    "if let Some(v5)=v5{let v6=(v4+v5.as_ref().chars().count()).saturating_sub(UnicodeWidthStr::width(v5.as_ref()));v0.push_str(&format::pad(&v5,v6,v3,v2.precision))}",
    "v1=v2.suffix.as_str()"]
 
+/-- The loop after the repair `notes/fix-blame-commit-link-precision.diff`: the commit arm copies the hash, the padded
+string is bound and — for `{commit}` — linked by `format_raw_line` before it is appended. -/
+def modelledLoopStmtsLinkAfterPad : List String :=
+  ["v0.push_str(v2.prefix.as_str())",
+   "let v3=v2.alignment_spec.unwrap_or(format::Align::Left)",
+   "let v4=v2.width.unwrap_or(15)",
+   "let v5=match v2.placeholder{…}",
+   "if let Some(v5)=v5{let v6=(v4+v5.as_ref().chars().count()).saturating_sub(UnicodeWidthStr::width(v5.as_ref()));let v7=format::pad(&v5,v6,v3,v2.precision);if v2.placeholder==Some(Placeholder::Str(\"commit\")){v0.push_str(&delta::format_raw_line(&v7,config))}else{v0.push_str(&v7)}}",
+   "v1=v2.suffix.as_str()"]
+
 def modelledPadSpecs : List (String × String × String) :=
   [("None", "Left", "{space}{s:<width$}"), ("None", "Center", "{space}{s:^width$}"), ("None", "Right", "{space}{s:>width$}"),
    ("Some", "Left", "{space}{s:<width$.precision$}"), ("Some", "Center", "{space}{s:^width$.precision$}"),
@@ -317,8 +394,10 @@ def modelledRowPieces : List (String × String) :=
 
 def shapeAsModelled : Bool :=
   fieldScrutinee == "placeholder.placeholder" && noneArm && wildcardArm == "unreachable" &&
-  fnStmts == modelledFnStmts && loopStmts == modelledLoopStmts &&
-  padArgs == ["&field", "padded_width", "alignment_spec", "placeholder.precision"] &&
+  fnStmts == modelledFnStmts &&
+  ((loopStmts == modelledLoopStmts && padUse == "push") ||
+   (loopStmts == modelledLoopStmtsLinkAfterPad && padUse == "bind-then-link")) &&
+  padArgs == ["&v5", "v6", "v3", "v2.precision"] &&
   paddedWidthArith == "saturating" && defaultWidth == 15 && defaultAlign == "Left" &&
   padSpecs == modelledPadSpecs && padClampsWidth && padClampsPrecision && padPopsCenterRightSpace &&
   strCenterRightSpace == "\"\"" &&
